@@ -25,6 +25,7 @@ struct Flags {
     bool check_routing = true;    // C18: every dependency call lands in the current set; create consumes 19 random bytes etc.
     bool allow_inject = true;
     bool strict_rand19 = false;   // C18: create takes exactly 19 bytes in total from the current random source
+    bool check_statics = false;   // C13: no API call other than inject / enable_features writes to the library's static storage
 };
 
 using deps::Wrap; using deps::wrap;
@@ -54,7 +55,8 @@ struct Machine {
         for (int s = 0; s < 2; s++) { for (auto& b : deps::kit(s).live) free(b.first); deps::kit(s).live.clear(); /* nothing of an earlier (failed) case may leak into this one */
             deps::kit(s).reset_all(); deps::kit(s).kdf_key_salt = 0x1111u * (unsigned)(s + 1); deps::kit(s).garbage = garbage_override >= 0 ? (uint8_t)garbage_override : (uint8_t)(0xA7 + 0x31 * s); }
         cur = 0; opt = deps::OPT_ALL; if (first_inject) deps::inject(0, deps::OPT_ALL);
-        if (set_features) { mask = 0; polyseed_enable_features(7); polyseed_enable_features(0); }   // through a known non-default state, so a case never depends on its predecessor
+        if (set_features) { mask = 0; polyseed_enable_features(7); polyseed_enable_features(0); }
+        if (fl.check_statics) { vf::static_guard().snapshot(); }   // through a known non-default state, so a case never depends on its predecessor
     }
     void release(int i) { // free through the library
         if (!ptr[i]) return; polyseed_data* p = ptr[i];
@@ -96,6 +98,7 @@ struct Machine {
         auto arm_now = [&]() { if (fail_mask && alloc_injected()) k.arm_fail(fail_mask); failed0 = k.alloc_failed; };
         auto observed_fail = [&]() { return k.alloc_failed > failed0; };
         std::string what = code_name(o.code); cls[std::string("op:") + what]++;
+        if (fl.check_statics) vf::static_guard().snapshot();
         std::string err;
         Wrap& wr = wrap();
         switch (o.code) {
@@ -213,12 +216,13 @@ struct Machine {
         } break;
         case STORE: { int i = pick_live(o.a); if (!ptr[i]) break; if (crypted[i]) saw_crypt_then_use = true; /* compared in invariants() */ } break;
         case KEYGEN: {
-            int i = pick_live(o.a); if (!ptr[i]) break; unsigned coin = (unsigned)(o.b * 8 + 3) & 2047u; static const size_t KS[6] = {32, 16, 64, 1, 0, 33}; size_t ks = KS[o.c % 6]; std::vector<uint8_t> key(ks + 1, 0x4B);
+            int i = pick_live(o.a); if (!ptr[i]) break; unsigned coin = (unsigned)(o.b * 8 + 3) & 2047u; static const size_t KS[8] = {32, 16, 64, 1, 0, 33, ((size_t)1 << 32) + 32, (size_t)-1 / 2}; size_t ks = KS[o.c % 8]; bool huge = ks > 4096; std::vector<uint8_t> key((huge ? 0 : ks) + 1, 0x4B); auto save_mode = k.kdf_mode; if (huge) k.kdf_mode = deps::KDF_NOTOUCH;   /* sizes beyond 32 bits: the stub records and does not write */
             size_t n0 = k.kdf.size(); arm_now(); polyseed_keygen(ptr[i], (polyseed_coin)coin, ks, key.data()); k.disarm();
             if (k.kdf.size() != n0 + 1) { err = "keygen did not call the current KDF exactly once"; break; }
             const deps::KdfCall& kc = k.kdf.back(); auto pw = model::keygen_password(*slot[i]); auto salt = model::keygen_salt(*slot[i], coin);
             if (fl.check_model && (kc.pwlen != 32 || memcmp(kc.pw.data(), pw.data(), 32) != 0 || kc.saltlen != 32 || memcmp(kc.salt.data(), salt.data(), 32) != 0 || kc.iterations != 10000 || kc.key != key.data() || kc.keylen != ks)) err = "keygen passed wrong arguments to the KDF: " + lib::kdf_str(kc) + " for " + slot[i]->describe() + " coin " + std::to_string(coin);
-            else if (key[ks] != 0x4B) err = "keygen wrote past the key buffer";
+            else if (!huge && key[ks] != 0x4B) err = "keygen wrote past the key buffer";
+            k.kdf_mode = save_mode;
         } break;
         case QUERY: {
             int i = pick_live(o.a); if (!ptr[i] || !fl.check_model) break; const model::Seed& m = *slot[i];
@@ -246,6 +250,10 @@ struct Machine {
         k.disarm(); (void)req0;
         if (log) { std::string l = what + " ->"; for (auto& p : cls) if (p.first.find(':') != std::string::npos && p.first.rfind("op:", 0) != 0 && p.first.rfind("cell:", 0) != 0) l += " " + p.first + "=" + std::to_string(p.second); for (int i = 0; i < NSLOTS; i++) if (ptr[i]) { lib::Image im = lib::store(ptr[i]); l += " slot" + std::to_string(i) + "=" + vf::hex(im.data(), 32); } if (!K().kdf.empty()) l += " kdf=" + lib::kdf_str(K().kdf.back()); log->push_back(l); }
         if (!err.empty()) return "step " + std::to_string(step_no) + " " + what + ": " + err;
+        if (fl.check_statics) {
+            if (o.code == INJECT || o.code == ENABLE) vf::static_guard().accept();
+            else { std::string ch = vf::static_guard().changed(); if (!ch.empty()) return "step " + std::to_string(step_no) + " " + what + ": the call changed static storage of the library again (" + ch + "): the library carries state from call to call besides the enabled features and the injected functions"; }
+        }
         if (live_count() > max_live) max_live = live_count();
         return invariants(what.c_str(), other_before);
     }
